@@ -1205,13 +1205,38 @@ func eq(lhs, rhs reflect.Value) bool {
 		return ok && v1 == v2
 	}
 
-	// Arrays and maps are compared with a deep equal
+	// Arrays and maps are compared member by member, so that the
+	// Go types in which equal members happen to be held (an int
+	// returned by a function and a float64 literal, a []string
+	// and a []interface{}) do not make them different.
 	if jtypes.IsArray(lhs) && jtypes.IsArray(rhs) {
-		return reflect.DeepEqual(lhs.Interface(), rhs.Interface())
+		l, r := jtypes.Resolve(lhs), jtypes.Resolve(rhs)
+		if l.Len() != r.Len() {
+			return false
+		}
+		for i, N := 0, l.Len(); i < N; i++ {
+			if !eq(l.Index(i), r.Index(i)) {
+				return false
+			}
+		}
+		return true
 	}
 
 	if jtypes.IsMap(lhs) && jtypes.IsMap(rhs) {
-		return reflect.DeepEqual(lhs.Interface(), rhs.Interface())
+		l, r := jtypes.Resolve(lhs), jtypes.Resolve(rhs)
+		if l.Type().Key() != r.Type().Key() {
+			return reflect.DeepEqual(lhs.Interface(), rhs.Interface())
+		}
+		if l.Len() != r.Len() {
+			return false
+		}
+		for _, k := range l.MapKeys() {
+			rv := r.MapIndex(k)
+			if !rv.IsValid() || !eq(l.MapIndex(k), rv) {
+				return false
+			}
+		}
+		return true
 	}
 
 	// Two nulls are equal, whether they come from a literal or
